@@ -23,6 +23,10 @@ CLAIMED = {
         text='Real signatures.mask on every signature x num_args (z3 integer 0..len+2) x ordered name tuples x hide flags; z3 decides Accept(mask,(m,kw)) <=> Accept(sig,(n+m,kw+names)) over all call shapes, the ValueError condition, and hide-flag soundness by finite expansion of the hidden arguments; order independence and composition laws compared structurally.',
         note='Bounds: quick = K<=2 with <=2 names in every order, K<=3 with <=1 name, 15 hide combinations on K<=2; thorough = K<=3/3 names, K<=4/2 names.' + TRUST,
         ref='4/C03'),
+    'C04': dict(
+        text='(i) forwards(outer, inner, n, *names, flags) is compared with embed(outer, mask(inner, ...)) in parameters and provenance over the universe x all flags; (ii) wrappers whose body performs the written call are generated, declared with forwards_to_function / forwards_to_method / forwards_to_super / apply_forwards_to_super (emulate on/off, bound/unbound), and z3 decides over all call shapes that every call accepted by the reported signature executes (and the converse where the property demands exactness); ValueError only for never-callable programs.',
+        note='Bounds: quick = identity on pairs <=1 named in total x 20 flag combinations; declared wrappers with bare outer, callee <=1 named, <=1 fixed positional, <=1 name, pristine/absent/foreign stars; thorough = <=3 named, star-name variants, 32 flag combinations, partial=True, callee <=2 named.' + TRUST + ' Contradictory declarations (hide_* together with a name of the hidden class) and unbound forwards_to_method/super wrappers reporting their plain signature are outside the claim.',
+        ref='4/C04'),
     'C05': dict(
         text='Programs of a forwarding grammar are generated production by production from solver decisions, compiled and given to the real sigtools.signature; when the result is not the plain signature z3 decides over all call shapes that every accepted non-colliding call executes (model re-checked by really calling the generated function), or, for tainted / foreign / doubled stars, that the callee\'s parameters are not advertised and soundness holds for some contents of that star.',
         note='Bounds: quick = sum of four focus groups (star forms x site shapes; 16 contexts x 6 routes; 22 taint statements before/after; unresolvable callees) with bare outer and callee <=1 named parameter, plus positional-only outers on self/partial routes; thorough = larger def-lists, 2 names, full cross product (time-limited).' + TRUST + ' Ground-truth semantics of the grammar productions are the generator\'s (validated by real execution of witnesses).',
@@ -31,6 +35,14 @@ CLAIMED = {
         text='Same program space as C05: the discovered signature and provenance are compared with the value obtained through the public algebra (specifiers.forwards + merge) from the generator\'s ground truth; programs whose written call can never succeed (z3: no call shape accepted) may also yield the plain signature.',
         note='Bounds as C05. Differential between two routes through the real code; the solver explores the grammar exhaustively within the bound and decides the impossible-call escape.' + TRUST,
         ref='4/C06'),
+    'C07': dict(
+        text='(a) a table of adversarial sources (24 statement constructs x 7 function kinds x forwarding call on/off, 44 special objects incl. builtins, C callables, classes, partials, uncallable partials) and (b) a finite corpus of callables walked from importable modules: the three retrieval entry points must return an UpgradedSignature exactly when inspect.signature returns and raise the same exception type otherwise; for plain functions z3 decides over all call shapes that the result only narrows the own def-list; (c) the Sphinx hook returns the evaluated signature strings and never raises on a fixture module.',
+        note='Bounds: quick = single constructs, 21 modules (~700 callables), 27 fixture names; thorough = pairs of constructs, ~120 modules (~7 400 callables). The corpus part is a finite enumeration: the solver decides only the call dimension there.' + TRUST,
+        ref='4/C07'),
+    'C08': dict(
+        text='A well-formedness predicate on result.sources (keys == parameters + "+depths", lists non-empty and duplicate-free, every source has a depth and itself declares the name, exact source sets for merge/embed on role-consistent inputs, depth 0 outermost / chain position inside, wrapper objects replacing wrapped functions) evaluated on every result of the algebra over the universe (inner stars named like the outer\'s included), on every program of the forwarding grammar and on the corpus.',
+        note='Bounds: quick = pairs <=2 named in total, the quick grammar of C05/C06, 21 modules; thorough = <=3 named with triples, thorough grammar, ~120 modules. No call-shape query: assertions on concrete results along solver-enumerated paths.' + TRUST,
+        ref='4/C08'),
     'C09': dict(
         text='Exactness of the real merge on name-aligned role-consistent pairs (two unsat queries per pair over all call shapes, raise <=> no common call), unary/idempotence/neutral-element/round-trip laws on all signatures, fold law on role-consistent triples.',
         note='Bounds: quick = pairs K<=2, unary laws K<=3, triples <=2 named in total; thorough = pairs K<=3/<=5 total, unary K<=4, triples <=4 total.' + TRUST,
@@ -47,6 +59,10 @@ CLAIMED = {
         text='Every decorator form of modifiers (kwoargs, posoargs, both stacked, start=, end=, autokwoargs) on every function of the universe and every selection: admissibility <=> no ValueError, advertised signature == independently computed rewrite, and the decorated callable (direct and bound) accepts/rejects and routes SYMBOLIC argument values exactly like a native def with that signature (z3 validity).',
         note='Bounds: quick = signatures K<=2, direct calls on K<=2 for all kwoargs/posoargs assignments, bound calls on 2-parameter methods for all forms; thorough = K<=3 and 3 positional-or-keyword parameters.' + TRUST,
         ref='4/C12'),
+    'C13': dict(
+        text='Stacks of 1..D layers built with wrappers.decorator / wrapper_decorator (own parameter none / keyword-only / positional) around every function of the universe, as function, method and staticmethod: z3 decides over all call shapes that the signature reported by sigtools.signature and by inspect.signature only accepts calls that every layer and the decorated function accept (ChainExec), the decorated object is really called on symbolic values and compared with the hand-written composition (results and propagated exceptions), binding removes the first parameter, wrappers.wrappers lists the layers; Combination: result equals the chained call, merged signature sound.',
+        note='Bounds: quick = K<=1, D<=2 for signatures, D=1 for calls, Combination of <=3 functions with <=2 named in total; thorough = K<=2, D<=3.' + TRUST + ' Preconditions from the property: distinct own/decorated names, some call executes.',
+        ref='4/C13'),
     'C14': dict(
         text='str/bind/bind_partial of upgraded signatures produced through 5 routes are compared with a plain inspect.Signature of the same parameters on forked call shapes with symbolic values; replace()/evaluated() keep type, provenance and upgraded annotations; ==, != and hash are exercised against 13 kinds of partners (None, str, plain inspect objects, upgraded objects differing in one field).',
         note='Bounds: quick = K<=2; thorough = K<=3.' + TRUST,
